@@ -700,11 +700,13 @@ def explore(tier, seed, rng, wd):
         # model answers for the P lines
         mreq = [f"c19 eval {ins['u']} {ins['rep']} {model_val(ins['rep'], str(x))}" for k, ins, x in meta if k == "P"]
         mans = iter(drv.ask(mreq))
+        xans = iter(drv.ask([q.replace("c19 eval", "c19 extra", 1) for q in mreq]))
         for (k, ins, x), a in zip(meta, answers):
             rep = ins["rep"]
             if a.startswith("T "):
                 if k == "P":
                     next(mans)
+                    next(xans)
                 xs = x if k == "P" else (a.split("curx=")[1].split()[0] if "curx=" in a else "?")
                 if k == "S" and rep == "f32" and xs.lstrip("-").isdigit():
                     xs = sweep_x(rep, xs)
@@ -739,9 +741,10 @@ def explore(tier, seed, rng, wd):
                                                                                       count=int(r[key]))})
             elif k == "P":
                 ma = next(mans)
+                xa = next(xans)
                 stats["points"] += 1
                 stats["reps"][rep] += 1
-                check_point(ins, units, cfg, str(x), a, ma, violations, stats, vrec, exact=exact)
+                check_point(ins, units, cfg, str(x), a, ma, violations, stats, vrec, exact=exact, extra=xa)
                 distinct.add((ins["u"], rep))
                 if len(samples) < 10 and rep in ("f32", "i64", "f80", "u8") and stats["points"] % 97 == 1:
                     samples.append({"request": f"c19 eval {ins['u']} {rep} {model_val(rep, str(x))}", "model": ma, "harness": a})
@@ -781,7 +784,7 @@ def sweep_x(rep, xs):
     return xs if rep in INT_INFO else "%08x" % int(xs)
 
 
-def check_point(ins, units, cfg, x, a, ma, violations, stats, vrec, exact=False):
+def check_point(ins, units, cfg, x, a, ma, violations, stats, vrec, exact=False, extra=None):
     rep = ins["rep"]
     r = kv(a)
     m = kv(ma)
@@ -816,6 +819,22 @@ def check_point(ins, units, cfg, x, a, ma, violations, stats, vrec, exact=False)
     for key in ("padd", "zpadd"):      # point + ZERO: the model's value is that of q + ZERO converted back to Rep
         if not same_bits_or_nan(rep, r[key], x, allow_negzero_flip=True):
             diffs.append(key)
+    if extra is not None:
+        # the additive entry points (AuModel.Zero: compoundWithZero, inViaMaker/inRepExplicit/dataIn, pointPlusZero, ZERO - q)
+        xm = kv(extra)
+        if "pe" not in xm:
+            diffs.append("extra:" + extra[:40])
+        else:
+            for key in ("pe", "me", "padd", "zpadd"):
+                if not model_tok_matches(xm[key], ins["u"], rep, r[key]):
+                    diffs.append(key)
+            for key in ("inm", "inr", "ind"):
+                if not model_tok_matches(f"u{ins['u']}:" + xm[key], ins["u"], rep, r[key]):
+                    diffs.append(key)
+            if r["zsub"] != "-":
+                if xm["zsub"] == "ub" or not model_tok_matches(xm["zsub"], ins["u"], srep, r["zsub"]):
+                    diffs.append("zsub")
+            stats["extra_lines"] = stats.get("extra_lines", 0) + 1
     inits = r["init"].split(",")
     mi = m["init"].split(":")
     for v in inits:
@@ -851,7 +870,14 @@ def check_point(ins, units, cfg, x, a, ma, violations, stats, vrec, exact=False)
     for key, what in (("in", "q.in(u)"), ("inm", "q.in(QuantityMaker<U>{})"), ("inr", "q.in<Rep>(u)"), ("ind", "q.data_in(u)")):
         if r[key] != x and not (ex is None and exact_of(rep, r[key]) is None):
             bad.append((f"{what} == stored value", x, r[key]))
-    for key, what in (("pe", "q += ZERO"), ("me", "q -= ZERO")):       # oracle only (quantity.hh:301-308 is not modelled)
+    if r["zsub"] != "-":                  # ZERO - q == -q (exact), where the harness evaluated it
+        ez, eq_ = exact_of(srep, r["zsub"]), exact_of(rep, x)
+        neg = None if eq_ is None else (("inf", -eq_[1]) if isinstance(eq_, tuple) else -eq_)
+        if (ez is None) != (neg is None) or (ez is not None and ez != neg):
+            bad.append(("ZERO - q == -q", neg, r["zsub"]))
+    elif rep not in INT_INFO or INT_INFO[rep][0] < 32:
+        bad.append(("ZERO - q evaluated", "a value", "-"))
+    for key, what in (("pe", "q += ZERO"), ("me", "q -= ZERO")):
         if not same_number(rep, r[key], rep, x):
             bad.append((f"({what}) leaves q unchanged", x, r[key]))
     for site, v in zip(INIT_SITES, inits):
@@ -1188,7 +1214,9 @@ def replay(path):
             if ans[0].startswith("T "):
                 viol.append({"what": "trap: " + ans[0][:200]})
             else:
-                check_point(ins, [unit], " ".join(cfg), x, ans[0], ma, viol, stats, vrec, exact=(compiler == "exact"))
+                xa = drv.ask([f"c19 extra 0 {rep} {model_val(rep, x)}"])[0]
+                print("extra :", xa)
+                check_point(ins, [unit], " ".join(cfg), x, ans[0], ma, viol, stats, vrec, exact=(compiler == "exact"), extra=xa)
             d = kv(dl[0])
             if (d["pc"], d["pv"], d["pa"], d["qc"], d["qv"], d["qa"], d["ce"], d["unit_same"]) != ("0", "0", "0", "1", "1", "1", "1", "1"):
                 viol.append({"what": "type-level facts fail: " + dl[0]})
